@@ -35,7 +35,7 @@ const (
 // thorough takes all of them plus every 16th of the 65536 four-file digraphs.
 func plan(tier string) (n3, e4cases, random, stress int) {
 	if tier == "thorough" {
-		return 512, 4096 / batch4, 2000, 24
+		return 512, 1024 / batch4, 400, 12
 	}
 	return 128, 0, 60, 6
 }
@@ -272,7 +272,7 @@ func (prop) Run(ctx *fw.Ctx, i int) fw.Result {
 	case i < n1+n2+n3+e4:
 		b := i - n1 - n2 - n3
 		for k := 0; k < batch4; k++ {
-			graphs = append(graphs, sched.FromBits(4, uint64(b*batch4+k)*16+ctx.Seed%16, r))
+			graphs = append(graphs, sched.FromBits(4, uint64(b*batch4+k)*64+ctx.Seed%64, r))
 		}
 	case i < n1+n2+n3+e4+rnd:
 		graphs = append(graphs, sched.Random(r.Range(4, 8), r))
